@@ -106,6 +106,20 @@ Theorem C13_retry_succeeds f fl a key data now r f' :
   run (read hash key) f'' = (Ok data, f'') /\ (forall k, k <> key -> abs_idx hash f'' k = abs_idx hash f k).
 Proof. exact (write_retry_succeeds hash HL f fl a key data now r f'). Qed.
 
+Theorem C13_remove_hash_faulty_others i f r f' :
+  frun (remove_hash i) f r f' ->
+  forall l, (forall cp, content_path i = Some cp -> l <> InCache cp) -> lookup f' l = lookup f l.
+Proof. exact (remove_hash_faulty_others i f r f'). Qed.
+
+Theorem C13_remove_faulty_others f key now r f' :
+  IndexInv f -> wf_rec hash (smeta_of key wopts0 now) -> PrefixFree hash (encode_smeta (smeta_of key wopts0 now)) ->
+  frun (delete hash key now) f r f' ->
+  IndexInv f' /\
+  (forall k, k <> key -> abs_idx hash f' k = abs_idx hash f k) /\
+  (forall l, ~ is_index l -> lookup f' l = lookup f l) /\
+  (abs_idx hash f' key = abs_idx hash f key \/ abs_idx hash f' key = None).
+Proof. exact (delete_faulty_others hash f key now r f'). Qed.
+
 (* what SameIdx gives: the index area is well-shaped, every key's lookup and every non-index location unchanged *)
 Theorem C13_same_idx f c :
   SameIdx hash f c -> IndexInv c /\ (forall k, abs_idx hash c k = abs_idx hash f k) /\ (forall l, ~ is_index l -> lookup c l = lookup f l).
@@ -143,3 +157,5 @@ Print Assumptions C13_close_truthful.
 Print Assumptions C13_commit_truthful.
 Print Assumptions C13_write_faulty_others.
 Print Assumptions C13_retry_succeeds.
+Print Assumptions C13_remove_hash_faulty_others.
+Print Assumptions C13_remove_faulty_others.
